@@ -584,6 +584,12 @@ def rule_to_timings(chk: Check, model: Model, rid: str):
     wn = _obj_events(r, "Window")
     ok = len(sv) == 1 and len(wn) == 1
     if ok:
+        # every slot gets windows of its own (they are filled in place per slot afterwards): the empty windows are built whenever a slot
+        # template is built, inside the slot's own iteration, and are what the template holds
+        from . import flow as _flow
+        own = wn[0].loops[:len(sv[0].loops)] == sv[0].loops and _flow.equivalent(wn[0].guard, sv[0].guard) and any(x == wn[0].term for x in T.walk(_fields(sv[0].term).get("windows", T.NONE)))
+        chk.add(rid, "template: every slot has its own window arrays", bool(own), f"the empty windows are built under {T.show(wn[0].guard)[:120]} (slot template under {T.show(sv[0].guard)[:80]}) and the "
+                f"template holds {T.show(_fields(sv[0].term).get('windows', T.NONE))[:120]}: windows shared between slots are overwritten by each other's fill", chk.loc(fi, wn[0].node))
         f = _fields(sv[0].term)
         runv = f.get("run", T.NONE)
         ok = T.call_name(runv) in ("numpy.zeros",) if runv[0] == "call" else False
